@@ -26,7 +26,7 @@ Lemma wh_fresh : forall s chunk s' r,
   (r = false /\ PhaseB q nc s') \/ (r = true /\ (PhaseX q nc s' \/ g_hdr_err s' = true)).
 Proof.
   intros s chunk s' r HW F W.
-  destruct s as [status H0 buf hw fin chunking rem disc closed head body term herr efin oerr].
+  destruct s as [status H0 buf hw fin chunking rem disc closed head body term herr efin oerr blkd].
   unfold Fresh in F; simpl in *.
   destruct F as (-> & -> & -> & -> & -> & -> & -> & -> & -> & -> & -> & NC). subst hw.
   pose proof (wh_hdrs_facts q nc status H0 NC) as FACTS. cbv zeta in FACTS.
@@ -47,8 +47,8 @@ Proof.
   - unfold fmt_check in W; simpl in W.
     destruct r0 as [z|]; simpl in W.
     + destruct (z - Z.of_nat (length chunk) <? 0)%Z eqn:LT; simpl in W.
-      * injection W as <- <-; simpl. right. split; auto. left.
-        unfold PhaseX; simpl. repeat split; auto.
+      * injection W as <- <-. right. split; auto. left.
+        unfold PhaseX, drop_pending; destruct blkd; simpl; repeat split; auto.
       * injection W as <- <-; simpl. left. split; auto.
         unfold PhaseB; simpl. do 7 (split; [reflexivity|]).
         exists status, H, (Some z). simpl.
@@ -77,7 +77,7 @@ Lemma conn_write_B : forall s chunk s' r,
   (r = false /\ PhaseB q nc s') \/ (r = true /\ PhaseX q nc s').
 Proof.
   intros s chunk s' r B W.
-  destruct s as [status H0 buf hw fin chunking rem disc closed head body term herr efin oerr].
+  destruct s as [status H0 buf hw fin chunking rem disc closed head body term herr efin oerr blkd].
   unfold PhaseB in B; simpl in B.
   destruct B as (-> & -> & -> & -> & -> & -> & -> & code & H & r0 & -> & HF & REM & RE & NN & DISC).
   unfold conn_write, fmt_check in W; simpl in W.
@@ -85,7 +85,7 @@ Proof.
   - destruct r0 as [z0|]; simpl in RE; [|discriminate]. injection RE as RE.
     destruct (z - Z.of_nat (length chunk) <? 0)%Z eqn:LT; simpl in W.
     + injection W as <- <-. right. split; auto.
-      unfold PhaseX; simpl. do 5 (split; [reflexivity|]).
+      unfold PhaseX, drop_pending; destruct blkd; simpl; (do 5 (split; [reflexivity|])); [reflexivity|].
       split; [exact HF|]. exists (Some z0). split; [exact REM|]. lia.
     + injection W as <- <-. left. split; auto.
       unfold PhaseB; simpl. do 7 (split; [reflexivity|]).
@@ -106,7 +106,7 @@ Lemma conn_finish_B : forall rf s s' r,
   (r = false /\ PhaseD q nc (set_fin s' true)) \/ (r = true /\ PhaseX q nc s').
 Proof.
   intros rf s s' r B W.
-  destruct s as [status H0 buf hw fin chunking rem disc closed head body term herr efin oerr].
+  destruct s as [status H0 buf hw fin chunking rem disc closed head body term herr efin oerr blkd].
   unfold PhaseB in B; simpl in B.
   destruct B as (-> & -> & -> & -> & -> & -> & -> & code & H & r0 & -> & HF & REM & RE & NN & DISC).
   unfold conn_finish in W; simpl in W.
@@ -124,7 +124,7 @@ Proof.
         (split; [reflexivity|]); (split; [exact HF|]); (split; [exact REM|]); (split; [exact DONE|]);
         (split; [reflexivity|]); rewrite <- DISC; reflexivity.
     + injection W as <- <-. right. split; auto.
-      unfold PhaseX; simpl. do 5 (split; [reflexivity|]).
+      unfold PhaseX, drop_pending; destruct blkd; simpl; (do 5 (split; [reflexivity|])); [reflexivity|].
       split; [exact HF|]. destruct r0 as [z0|]; simpl in RE; [|discriminate]. injection RE as RE.
       exists (Some z0). split; [exact REM|]. lia.
   - destruct r0 as [z0|]; simpl in RE; [discriminate|].
@@ -141,7 +141,7 @@ Definition same_conn (s s' : st) : Prop :=
   h_hw s = h_hw s' /\ h_fin s = h_fin s' /\ c_chunking s = c_chunking s' /\ c_rem s = c_rem s' /\
   c_disc s = c_disc s' /\ c_closed s = c_closed s' /\ o_head s = o_head s' /\ o_body s = o_body s' /\
   o_term s = o_term s' /\ g_hdr_err s = g_hdr_err s' /\ g_early_fin s = g_early_fin s' /\
-  g_out_err s = g_out_err s'.
+  g_out_err s = g_out_err s' /\ t_blocked s = t_blocked s'.
 
 Lemma same_conn_refl : forall s, same_conn s s.
 Proof. intros; unfold same_conn; repeat split. Qed.
@@ -158,7 +158,7 @@ Ltac use_same :=
   match goal with
   | SC : same_conn ?s ?s' |- _ =>
       destruct s, s'; unfold same_conn in SC; simpl in SC;
-      destruct SC as (? & ? & ? & ? & ? & ? & ? & ? & ? & ? & ? & ?); subst
+      destruct SC as (? & ? & ? & ? & ? & ? & ? & ? & ? & ? & ? & ? & ?); subst
   end.
 
 Lemma PhaseB_same : forall s s', same_conn s s' -> PhaseB q nc s -> PhaseB q nc s'.
@@ -182,7 +182,7 @@ Lemma conn_finish_X : forall rf s, PhaseX q nc s ->
   exists s', conn_finish rf s = (s', false) /\ PhaseX q nc s' /\ h_fin s' = h_fin s.
 Proof.
   intros rf s X.
-  destruct s as [status H0 buf hw fin chunking rem disc closed head body term herr efin oerr].
+  destruct s as [status H0 buf hw fin chunking rem disc closed head body term herr efin oerr blkd].
   unfold PhaseX in X; simpl in X. destruct X as (-> & -> & -> & -> & -> & HX).
   unfold conn_finish; simpl. rewrite andb_false_r. simpl.
   destruct rf, disc, chunking; simpl; eexists; (split; [reflexivity|]); (split; [|reflexivity]);
@@ -302,7 +302,7 @@ Lemma finish_pre_same : forall rf s s' r, finish_pre rf s = (s', r) ->
   (r = true -> (h_status s =? 200) || negb (body_allowed (h_status s)) = true).
 Proof.
   intros rf s s' r W.
-  destruct s as [status H0 buf hw fin chunking rem disc closed head body term herr efin oerr].
+  destruct s as [status H0 buf hw fin chunking rem disc closed head body term herr efin oerr blkd].
   unfold finish_pre in W; simpl in W.
   destruct ((status =? 200) && match q_meth q with GET | HEAD => true | POST => false end
             && negb (hmem K_ETAG H0)) eqn:C1; simpl in W.
@@ -370,10 +370,10 @@ Proof.
   destruct (if h_hw s then (s, false) else finish_pre rf s) as [s1 r1]. simpl in E1.
   destruct r1; [exact E1|].
   clear E. revert E1. generalize s1. clear s. intros s E.
-  destruct s as [status H0 buf hw fin chunking rem disc closed head body term herr efin oerr].
-  simpl in E. subst herr.
-  unfold flush, write_headers, conn_write, conn_finish, fmt_check; simpl.
-  repeat match goal with
+  destruct s as [status H0 buf hw fin chunking rem disc closed head body term herr efin oerr blkd].
+  simpl in E. subst herr. destruct blkd.
+  all: unfold flush, write_headers, conn_write, conn_finish, fmt_check, drop_pending; simpl.
+  all: repeat match goal with
          | |- context [if ?c then _ else _] => destruct c; simpl
          | |- context [match ?c with Some _ => _ | None => _ end] => destruct c; simpl
          end; reflexivity.
@@ -474,6 +474,9 @@ Proof.
     assert (FIN : h_fin s = false).
     { destruct AB as [A|B]; [destruct A as (_ & E & _)|destruct B as (_ & E & _)]; exact E. }
     rewrite FIN.
+    assert (ABb : PhaseA q nc (set_blocked s (blocked_auto q)) \/ PhaseB q nc (set_blocked s (blocked_auto q))).
+    { destruct AB as [A|B]; [left|right]; destruct s; assumption. }
+    clear AB. generalize dependent (set_blocked s (blocked_auto q)). clear s FIN. intros s AB.
     destruct (finish e q true s) as [s1 r1] eqn:F1.
     destruct AB as [A|B].
     + destruct (finish_A _ _ _ _ A F1) as [(-> & D)|(-> & [X|[E|(A1 & _)]])].
